@@ -439,7 +439,7 @@ SEPS = [" ", "", " ", "  ", "\t", " \xa0"]
 
 
 SPECIAL_CHARS = list(
-    "\u0301\u0308\u200d\u200c\u202e\u202d\u2066\u2069\u0660\u0663\u06f4\u0967\uff11\u00df\u0130\u0131\u01c5\ufb01\u212a\u212b\u1e9e\u03c2\u1680\u2000\u2003\u2009\u200a\u205f\u3000"
+    "\x1a\x04\x03\u0301\u0308\u200d\u200c\u202e\u202d\u2066\u2069\u0660\u0663\u06f4\u0967\uff11\u00df\u0130\u0131\u01c5\ufb01\u212a\u212b\u1e9e\u03c2\u1680\u2000\u2003\u2009\u200a\u205f\u3000"
     "\u2028\u2029\x1c\x1d\x1e\x1f\x85\xa0\xad\ufeff\ufffd\U000e0001\U0001f1e6\u2764\ufe0f\u066a\uff1a\uff03\uff20\uff5c\u00a6\u2223\u01c0\u201c\u201d\u2018\u2019\u00b4\u3003\uff02\uff40"
     "\u2215\u29f5\uff3c\u02d0\ua789\u2236\ufe55\uff1c\uff1e\u2039\u203a\u27e8\u27e9\x00\x01\x7f\x08\x1b\u00e9\u00c5\u00f1\u4e2d\u0e01\u0e49\u05d0\u0627\u0915\u094d\U00010000\U0010ffff\uffff\ufffe")
 
